@@ -163,7 +163,7 @@ def check_exec(ctx, name, scn, res, prefix, cost):
 
 def run(ctx):
     bound = 2 if ctx.quick else 3
-    budget = float(os.environ.get("GV_SCHED_BUDGET", 60 if ctx.quick else 1500))
+    budget = float(os.environ.get("GV_SCHED_BUDGET", 100 if ctx.quick else 1500))
     horizon = 600
     ctx.bound("deviation_bound_requested", bound)
     only = os.environ.get("GV_C30_ONLY")
